@@ -984,6 +984,7 @@ package profile
 //@     invariant sep: !same_array(locBuffer, locationIds)
 //@     invariant buf: 0 <= $i && $i <= len(p.Sample) && forall n int :: n == $i ==> len(locBuffer) == old(sumidx(p, len(p.Sample))) - old(sumidx(p, n))
 //@     invariant mono7: forall k int :: 0 <= k && k <= len(p.Sample) ==> old(sumidx(p, k)) <= old(sumidx(p, len(p.Sample)))
+//@     invariant unfold7: forall k int :: 0 <= k && k < len(p.Sample) ==> old(sumidx(p, k + 1)) == old(sumidx(p, k)) + old(len(p.Sample[k].locationIDX))
 //@   loop 8
 //@     invariant mcomp: forall k int :: 0 <= k && k < len(p.Mapping) ==> ite(p.Mapping[k].ID < uint64(len(mappingIds)), mappingIds[int(p.Mapping[k].ID)] != nil, has(mappings, p.Mapping[k].ID))
 //@     invariant mres2: forall j int :: 0 <= j && j < len(p.Location) ==> p.Location[j].Mapping == ite(old(p.Location[j].mappingIDX) < uint64(len(mappingIds)), mappingIds[int(old(p.Location[j].mappingIDX))], mappings[old(p.Location[j].mappingIDX)])
